@@ -8,6 +8,7 @@ inductive Scalar
   | num (n : Int) (d : Nat)      -- float as an exact rational n / d, d > 0
   | bool (b : Bool)
   | str (s : String)
+  | nan                          -- float('nan'): a legitimate parameter value that must equal itself
 deriving DecidableEq, Repr
 
 inductive Val
@@ -40,8 +41,9 @@ def numOf : Scalar → Option (Int × Nat)
   | .num n d => some (n, d)
   | .bool b => some (if b then 1 else 0, 1)
   | .str _ => Option.none
+  | .nan => Option.none
 
-/-- Python / numpy `==` between two scalars -/
+/-- Python / numpy `==` between two scalars, with the NaN rule of the comparison (NaN matches NaN) -/
 def scalarEq (a b : Scalar) : Bool :=
   match numOf a, numOf b with
   | some (an, ad), some (bn, bd) => an * bd == bn * ad
@@ -52,6 +54,14 @@ def scalarEq (a b : Scalar) : Bool :=
     |a − b| ≤ 1e-8 + 1e-5·|b|   ⟺   10⁸·|an·bd − bn·ad| ≤ ad·(bd + 1000·|bn|) -/
 def isClose (a b : Int × Nat) : Bool :=
   (10 ^ 8 : Int) * (a.1 * b.2 - b.1 * a.2).natAbs ≤ a.2 * ((b.2 : Int) + 1000 * b.1.natAbs)
+
+def isNum (s : Scalar) : Bool := (numOf s).isSome || s == .nan
+
+/-- `np.isclose(a, b, equal_nan=True)` on two array elements -/
+def closeS (a b : Scalar) : Bool :=
+  match numOf a, numOf b with
+  | some x, some y => isClose x y
+  | _, _ => a == .nan && b == .nan
 
 def isBoolS : Scalar → Bool
   | .bool _ => true
@@ -68,12 +78,9 @@ def intArray (l : List Scalar) : Bool := !l.isEmpty && l.all isIntKind
 /-- arrays of whole numbers are compared exactly; otherwise `np.allclose(old, new)`, which raises
     TypeError for string arrays (the code then falls back to element-wise `==`) -/
 def arraysMatch (old new : List Scalar) : Bool :=
-  let numeric := (old ++ new).all (fun s => (numOf s).isSome)
+  let numeric := (old ++ new).all isNum
   if intArray old && intArray new then (old.zip new).all (fun p => scalarEq p.1 p.2)
-  else if numeric then
-    (old.zip new).all (fun p => match numOf p.1, numOf p.2 with
-      | some a, some b => isClose a b
-      | _, _ => false)
+  else if numeric then (old.zip new).all (fun p => closeS p.1 p.2)
   else (old.zip new).all (fun p => scalarEq p.1 p.2)
 
 /-- one queried entry against the stored attributes: `none` = entry skipped, `some (result, break?)` -/
@@ -85,16 +92,13 @@ def matchEntry (obj : Obj) (key : String) (v : Val) : Option (Bool × Bool) :=
     | Option.none => some (false, true)
     | some (.array old) =>
       match v with
-      | .scalar (.str s) =>
-        -- a Python str IS iterable; np.array(str) has size 1
-        if old.length != 1 then some (false, false) else some (arraysMatch old [.str s], false)
-      | .scalar _ => some (false, true)          -- not iterable
+      | .scalar _ => some (false, true)          -- not a sequence (a string is a scalar value)
       | .list new => if old.length != new.length then some (false, false) else some (arraysMatch old new, false)
       | .none => Option.none
     | some (.scalar old) =>
       match v with
       | .scalar s => some (scalarEq s old, false)
-      | .list new => some (new.all (fun s => scalarEq s old), false)     -- np.all(list == scalar)
+      | .list _ => some (false, true)            -- a sequence never matches a stored scalar
       | .none => Option.none
 
 /-- `check_for_matching_attrs`: loop over the queried dictionary with `break` -/
